@@ -762,6 +762,18 @@ theorem C12_signed_closed_normal (e : Encoding) (i : Int) :
   split <;> simp [tuple2, closedAt, isNormal, isAbs, hc, hn]
 
 
+/-- the refusal the crate documents ("signed binary numbers are not supported"): `into_signed` panics exactly for `Binary`
+and is `intoSigned` — the function all the theorems above are about — on every supported encoding.  (The model function
+`intoSigned` is total; this is the statement that nothing was proved "for the wrong reason" on the rejected input: the
+driver answers `signed` operations with `intoSignedChecked`, and `signed binary i` is compared with the crate's panic.) -/
+theorem C12_signed_refuses_exactly_binary (e : Encoding) (i : Int) :
+    (intoSignedChecked e i = none ↔ e = .Binary) ∧
+    (e ≠ .Binary → intoSignedChecked e i = some (intoSigned e i)) := by
+  cases e <;> simp [intoSignedChecked]
+
+example : intoSignedChecked .Binary 3 = none ∧ intoSignedChecked .Scott (-1) = some (intoSigned .Scott (-1)) := by
+  decide
+
 /-! ### lists -/
 
 /-- the empty list of each list encoding is the module's `nil()` constant -/
